@@ -31,10 +31,11 @@ OPrefixs == {"default", "root"}
 Elders   == {"none", "backend", "frontend"}
 BaseCases == [url : URLs, oauth : OAuths, placement : Placements, ptype : PTypes, lua : BOOLEAN, range : Ranges, open : Opens, cors : BOOLEAN,
               pubauth : BOOLEAN,     \* the other path of the backend declares an auth-url of its own
-              src : {"ingress"}, oprefix : {"default"}, elder : {"none"}]
+              src : {"ingress"}, oprefix : {"default"}, elder : {"none"}, twin : {FALSE}]
 ExtraCases == [url : {"none", "svc_ok", "http_ok", "malformed"}, oauth : {"none", "valid_with_path"}, placement : Placements, ptype : {"prefix"},
                lua : {TRUE}, range : {"default"}, open : {"after"}, cors : {FALSE}, pubauth : {FALSE},
-               src : Srcs, oprefix : OPrefixs, elder : Elders]
+               src : Srcs, oprefix : OPrefixs, elder : Elders,
+               twin : BOOLEAN]   \* another namespace runs an auth Service of the same name and port, used by an older Ingress
 Cases == BaseCases \cup ExtraCases
 
 SeqT(t) == [i \in 1..Len(t) |-> t[i]]
@@ -52,6 +53,28 @@ Guarded(rules, pid, b, p) ==
         /\ Applies(rules[i], pid, b, p)
         /\ \/ rules[i].kind = "deny" /\ ~rules[i].unless
            \/ /\ rules[i].kind = "intercept"
+              /\ \E j \in (i+1)..Len(rules) : rules[j].unless /\ rules[j].kind \in {"deny", "redirect"} /\ Applies(rules[j], pid, b, p)
+
+(* "intercepted by the authentication service call configured for exactly that path": the service a declaration names.
+   what: "svc" (the Service auth of the namespace of the Ingress: backend d_auth_8080), "addr" (the address 10.0.0.9:8000),
+   "any" (the declaration is not one of the plainly valid ones: whatever intercepts, or a deny) *)
+DeclaredService(c, own) ==
+    IF own = "pub" THEN "addr"                       \* the other path declares auth-url http://10.0.0.9:8000 when it declares one
+    ELSE IF c.url = "svc_ok" THEN "svc"
+    ELSE IF c.url = "http_ok" THEN "addr"
+    ELSE IF c.url = "none" /\ c.oauth = "valid_with_path" /\ c.oprefix = "default" THEN "svc"
+    ELSE "any"
+RightService(a, what) ==
+    CASE what = "svc"  -> a.target = "d_auth_8080"
+      [] what = "addr" -> SeqT(a.servers) = <<"10.0.0.9:8000">>
+      [] OTHER -> TRUE
+
+(* Guarded, by a deny or by a call to the declared service (a call to a further service on top of it takes nothing away) *)
+GuardedRight(rules, pid, b, p, what) ==
+    \E i \in 1..Len(rules) :
+        /\ Applies(rules[i], pid, b, p)
+        /\ \/ rules[i].kind = "deny" /\ ~rules[i].unless
+           \/ /\ rules[i].kind = "intercept" /\ RightService(rules[i], what)
               /\ \E j \in (i+1)..Len(rules) : rules[j].unless /\ rules[j].kind \in {"deny", "redirect"} /\ Applies(rules[j], pid, b, p)
 
 VARIABLE cs
